@@ -158,9 +158,13 @@ fn not<R: RealNumberInternalTrait>(
 fn add<R: RealNumberInternalTrait>(
     arguments: impl IntoIterator<Item = Value<R>>,
 ) -> Result<Value<R>> {
-    arguments
-        .into_iter()
-        .try_fold(Number::Integer(0), |a, b| Ok(a + b.expect_number()?))
+    let mut iter = arguments.into_iter();
+    // start from the first argument, not from exact 0: (+ -0.0) is -0.0
+    let init = match iter.next() {
+        Some(first) => first.expect_number()?,
+        None => Number::Integer(0),
+    };
+    iter.try_fold(init, |a, b| Ok(a + b.expect_number()?))
         .map(|num| Value::Number(num))
 }
 
